@@ -188,12 +188,13 @@ def data_rows(df):
             zip(df['ceilo'], df['dt'], df['height'], df['type'])]
 
 
-def run_scene(rows, prms, index=None, stages=('slices', 'groups', 'layers'), frame=None, debug_log=None, chunk_kwargs=None):
+def run_scene(rows, prms, index=None, stages=('slices', 'groups', 'layers'), frame=None, debug_log=None, chunk_kwargs=None,
+              route='stepwise'):
     """Execute the real pipeline on one scene under recording.  Returns the observation dict.
     One scene in four (chosen from the scene itself) runs with the package's loggers at DEBUG."""
     common.import_ampycloud()
     from ampycloud.data import CeiloChunk
-    obs = {'rows': rows, 'prms': prms, 'exc': None, 'stage': 'init', 'levels': {}, 'warnings': []}
+    obs = {'rows': rows, 'prms': prms, 'exc': None, 'stage': 'init', 'levels': {}, 'warnings': [], 'route': route}
     df = frame if frame is not None else make_frame(rows, index)
     if debug_log is None:
         debug_log = common.ambient_debug_for((len(rows), rows[:2], sorted((prms or {}).items(), key=str)))
@@ -201,14 +202,21 @@ def run_scene(rows, prms, index=None, stages=('slices', 'groups', 'layers'), fra
     with common.debug_logging(debug_log), record.recording() as tr, warnings.catch_warnings(record=True) as wl:
         warnings.simplefilter('always')
         try:
-            chunk = CeiloChunk(df, prms=copy.deepcopy(prms), **(chunk_kwargs or {}))
+            if route == 'run':
+                # the package's own entry point (construction + the three stages in one call)
+                import ampycloud
+                obs['stage'] = 'run'
+                chunk = ampycloud.run(df, prms=copy.deepcopy(prms), **(chunk_kwargs or {}))
+            else:
+                chunk = CeiloChunk(df, prms=copy.deepcopy(prms), **(chunk_kwargs or {}))
             obs['data'] = data_rows(chunk.data)
             obs['labels_unique'] = bool(chunk.data.index.is_unique)
             obs['flag'] = bool(chunk.clouds_above_msa_buffer)
             obs['eff'] = copy.deepcopy(chunk.prms)
             for st in stages:
-                obs['stage'] = st
-                getattr(chunk, 'find_' + st)()
+                if route != 'run':
+                    obs['stage'] = st
+                    getattr(chunk, 'find_' + st)()
                 obs['levels'][st] = snapshot(chunk, st)
             obs['stage'] = 'done'
             obs['chunk'] = chunk
